@@ -22,7 +22,7 @@ ASSUMPTIONS = [
     "tolerances: ramp values exact to 4 ulp, state recomputation 1e-9, subdivision independence 1e-7",
 ]
 
-CLASSES = ["elastic", "or-hand", "or-ad", "plastic", "mixed", "condensed"]
+CLASSES = ["elastic", "or-hand", "or-ad", "plastic", "mixed", "mixed-or", "condensed"]
 
 
 def fl(lo, hi, nd=3):
@@ -63,7 +63,7 @@ def setup(cls, case, fem):
         X[inner] += case["jitter"] * h * r.uniform(-1, 1, (int(inner.sum()), 3))
         mesh.update(points=X)
     region = fem.RegionHexahedron(mesh)
-    if cls == "mixed":
+    if cls in ("mixed", "mixed-or"):
         fc = fem.FieldsMixed(region, n=3)
     else:
         fc = fem.FieldContainer([fem.Field(region, dim=3)])
@@ -89,6 +89,9 @@ def setup(cls, case, fem):
         scale = 0.08
     elif cls == "mixed":
         body = fem.SolidBody(fem.ThreeFieldVariation(base), fc)
+    elif cls == "mixed-or":
+        # history material inside the three-field wrapper: the wrapper has to pass the new state variables through
+        body = fem.SolidBody(fem.ThreeFieldVariation(fem.OgdenRoxburgh(base, r=case["r"], m=case["m"], beta=case["beta"])), fc)
     elif cls == "condensed":
         body = fem.SolidBodyNearlyIncompressible(fem.NeoHooke(mu=mu), fc, bulk=50.0)
     return mesh, region, fc, [body], body, base, scale
@@ -106,7 +109,7 @@ def check(cls, case, rec):
     X = np.array(mesh.points)
     L = float(np.ptp(X[:, 0]))
     mdof = move.dof  # dofs of the first field carrying the ramped value
-    has_state = cls in ("or-hand", "or-ad", "plastic")
+    has_state = cls in ("or-hand", "or-ad", "plastic", "mixed-or")
     committed = np.array(body.results.statevars, dtype=float).copy() if has_state else None
     wmax_model = None
     alpha_prev = None
@@ -179,8 +182,19 @@ def check(cls, case, rec):
             if has_state:
                 sv = np.asarray(body.results.statevars, float)
                 um = body.umat
-                trial = np.asarray(um.gradient([np.asarray(F).copy(), committed.copy()])[-1], float)
+                if cls == "mixed-or":
+                    xq = [np.asarray(a_).copy() for a_ in res.x.extract()]
+                    trial = np.asarray(um.gradient(xq + [committed.copy()])[-1], float)
+                else:
+                    trial = np.asarray(um.gradient([np.asarray(F).copy(), committed.copy()])[-1], float)
                 rec.close("state=trial-state-of-converged-iterate", float(np.abs(sv - trial).max()) / max(1.0, float(np.abs(trial).max())), 1e-9, {"step": si, "substep": i})
+                if cls == "mixed-or":
+                    # the wrapped material sees the determinant-modified deformation gradient (J / det F)^(1/3) F
+                    Fq, Jq = np.asarray(xq[0]), np.asarray(xq[2])
+                    Fbar = (Jq / np.linalg.det(np.moveaxis(Fq, (0, 1), (-2, -1)))) ** (1 / 3) * Fq
+                    W = energy_density(fem, base, Fbar)
+                    wmax_model = W.copy() if wmax_model is None else np.maximum(wmax_model, W)
+                    rec.close("Wmax=running-maximum", float(np.abs(sv[0] - wmax_model).max()) / max(float(wmax_model.max()), 1e-12), 1e-9, {"step": si, "substep": i})
                 if cls.startswith("or"):
                     W = energy_density(fem, base, np.asarray(F))
                     wmax_model = W.copy() if wmax_model is None else np.maximum(wmax_model, W)
